@@ -3,7 +3,9 @@
    MODE 0 (DEC): arbitrary input decoded from format FMT: the result is NULL, or a data object of plausible size; every heap access is checked against the object table.
    MODE 1 (RT):  none -> FMT -> none round trip returns the original bytes, whatever the fragmentation of the input and of the intermediate encoded text. */
 #define IR_CHECK_OBJECTS 1
-#if MODE == 4
+#if MODE == 5
+#define IR_BYTEWIN 7936     /* the whole model heap is mirrored byte by byte (text buffers of every stage keep their concrete bytes concrete) */
+#elif MODE == 4
 #define IR_BYTEWIN 24      /* the input text is mirrored byte by byte: its concrete characters stay constants next to a symbolic one */
 #endif
 #include "hpre.h"
@@ -35,7 +37,7 @@ u64 _Block_copy(u64 b) { return b; } void _Block_release(u64 b) { }
 void _dispatch_temporary_resource_shortage(void) { ASSERT(0, "resource shortage"); }
 void dispatch_async_f(u64 q, u64 c, u64 f) { ASSERT(0, "unexpected async"); }
 void _dispatch_object_finalize(u64 o) { } void _dispatch_introspection_queue_dispose(u64 o) { }
-#if MODE == 2 || MODE == 3 || MODE == 4
+#if MODE == 2 || MODE == 3 || MODE == 4 || MODE == 5
 #define MAXOUT 16
 #else
 #define MAXOUT (N + 2)
@@ -51,7 +53,10 @@ static void observe(u64 dd) { out_n = 0; out_ok = 1; for (int i = 0; i < MAXOUT;
 static int ref_val(u8 c);
 static u64 mkinput(void) {
   u64 buf = ir_bump(N ? N : 1);
-#if MODE == 4
+#if MODE == 5
+  { static const unsigned char text[] = TEXT;      /* well-formed UTF-8 given by the driver; the continuation bytes selected by SYMMASK are symbolic over 0x80..0xBF */
+    for (int i = 0; i < N; i++) { if ((SYMMASK >> i) & 1) { SYM_AT(in_byte, i); ASSUME((in_byte[i] & 0xC0) == 0x80); } else in_byte[i] = text[i]; IR_ST8(buf + i, in_byte[i]); } }
+#elif MODE == 4
   ir_bytewin_base = buf;
   /* a VALID text: the characters selected by SYMMASK are arbitrary characters of the format's alphabet (symbolic), the others are the given text */
   { static const char text[] = TEXT;
@@ -62,6 +67,9 @@ static u64 mkinput(void) {
   u64 none = IR_LD64(G__dispatch_data_destructor_none);
 #if SPLIT == 0
   return dispatch_data_create(buf, N, 0, none);
+#elif defined(SPLITB) && SPLITB > SPLIT
+  { u64 a = dispatch_data_create(buf, SPLIT, 0, none), b = dispatch_data_create(buf + SPLIT, SPLITB - SPLIT, 0, none), c = dispatch_data_create(buf + SPLITB, N - SPLITB, 0, none);
+    return dispatch_data_create_concat(dispatch_data_create_concat(a, b), c); }
 #else
   u64 a = dispatch_data_create(buf, SPLIT, 0, none), b = dispatch_data_create(buf + SPLIT, N - SPLIT, 0, none);
   return dispatch_data_create_concat(a, b);
@@ -82,6 +90,9 @@ static _Bool ref_utf8_wf(const u8 *b, int n) {
       if (c == 0xF0 && d < 0x90) return 0; if (c == 0xF4 && d > 0x8F) return 0; i += 4; continue; }
     return 0; }
   return 1; }
+#if MODE == 5
+static void bw_on(void) { ir_bytewin_base = IR_HEAP_BASE; }
+#endif
 #define FMT_T (FMT == 0 ? G__dispatch_data_format_type_base32 : FMT == 1 ? G__dispatch_data_format_type_base32hex : G__dispatch_data_format_type_base64)
 /* independent reference decoders (RFC 4648), written for the harness: value of a character, -1 if not in the alphabet */
 static int ref_val(u8 c) {
@@ -96,7 +107,11 @@ static int ref_val(u8 c) {
 #define BITS (FMT == 2 ? 6 : 5)
 #define GROUP (FMT == 2 ? 4 : 8)
 void harness(void) {
-  ir_init_globals(); IR_ST32(TLS___dispatch_tsd(0), 0x104);
+  ir_init_globals();
+#if MODE == 5
+  bw_on();
+#endif
+  IR_ST32(TLS___dispatch_tsd(0), 0x104);
   u64 d = mkinput();
 #if MODE == 0
   u64 r = dispatch_data_create_with_transform(d, FMT_T, G__dispatch_data_format_type_none);
@@ -134,6 +149,19 @@ void harness(void) {
     if (good) { good = dispatch_data_get_size(r) == (u64)nout; if (nout) { observe(r); good = good & out_ok & (out_n == (u64)nout); for (int i = 0; i < N; i++) if (i < nout) good = good & (out[i] == dec[i]); } } }
   ASSERT(good, "ROUNDTRIP: the decoder accepts every valid text of its format and returns exactly the encoded bytes, independent of how the text is fragmented into regions");
   WITNESS_REACHED("a valid text was decoded");
+#elif MODE == 5
+  /* UTFV: a well-formed UTF-8 text with concrete lead bytes and symbolic continuation bytes, split into up to three regions, converted to UTF-16 (FMT 3 little, 4 big endian) and back */
+  ASSUME(ref_utf8_wf(in_byte, N));
+  u64 e = dispatch_data_create_with_transform(d, G__dispatch_data_format_type_utf8, UTF16_T);
+  _Bool good = e != 0; u64 r = 0;
+  if (good) { u64 esz = dispatch_data_get_size(e); good = esz >= 2 && esz <= 2 + 2 * (u64)N && (esz & 1) == 0;
+#if SPLIT2 > 0
+    if (good && (u64)SPLIT2 < esz) { u64 e1 = dispatch_data_create_subrange(e, 0, SPLIT2), e2 = dispatch_data_create_subrange(e, SPLIT2, ~0ull); e = dispatch_data_create_concat(e1, e2); }
+#endif
+    if (good) { r = dispatch_data_create_with_transform(e, UTF16_T, G__dispatch_data_format_type_utf8); good = r != 0; }
+    if (good) { good = dispatch_data_get_size(r) == (u64)N; observe(r); good = good & out_ok & (out_n == (u64)N); for (int i = 0; i < N; i++) good = good & (out[i] == in_byte[i]); } }
+  ASSERT(good, "UTF ROUNDTRIP: well-formed UTF-8 converted to UTF-16 and back is the original text, independent of how the input and the UTF-16 text are fragmented");
+  WITNESS_REACHED("a well-formed text made the round trip");
 #elif MODE == 3
   /* UTF: well-formed UTF-8 -> UTF-16 (FMT 3 little, 4 big endian) -> UTF-8, with the input split after SPLIT bytes and the UTF-16 text re-fragmented after SPLIT2 bytes
      (the text starts with a 2-byte byte-order mark: SPLIT2 = 4 with a 4-byte input character is the boundary between the two surrogates, odd SPLIT2 cuts a code unit).
